@@ -59,7 +59,7 @@ def setup(tier):
     api = wd.mod("watchdog.observers.api")
     desc = vsched.instrument(
         line_modules=[api, wd.mod("watchdog.utils.bricks"), wd.mod("watchdog.utils")],
-        instr_functions=[api.BaseObserver.dispatch_events], exclude=obsfam.EXCLUDE)
+        instr_functions=[(api.BaseObserver, "dispatch_events")], exclude=obsfam.EXCLUDE)
     return [H(f"c05 {n}", p) for n, p in programs(tier)], desc
 
 
